@@ -230,6 +230,16 @@ func Active() bool { return active }
 //go:norace
 func Steps() uint64 { return steps }
 
+// SetStepCap lets the running task bound the steps of its next operation: the run is
+// abandoned as a hang when more than n further steps are taken.
+//
+//go:norace
+func SetStepCap(n uint64) {
+	if active {
+		maxSteps = steps + n
+	}
+}
+
 // Seq returns the next global event sequence number (used to stamp invoke/return).
 //
 //go:norace
